@@ -805,6 +805,9 @@ pub fn do_check(args: &[String]) -> i32 {
                 "eintr_F3": total.eintr,
                 "cancellation_F7": total.cancelled,
                 "ill_formed_statement_raised_F10": total.raised,
+                "read_error_F5": total.probes.get("input_read_error_fired").copied().unwrap_or(0),
+                "read_eintr_F5": total.probes.get("input_eintr_fired").copied().unwrap_or(0),
+                "failing_callback_raised_F6": total.probes.get("catch_ran").copied().unwrap_or(0),
             },
             "hasher_configurations_F8": total.hash_modes,
             "probes": total.probes,
